@@ -1328,6 +1328,10 @@ def rule_move(c: Ctx) -> RuleResult:
         r.functions += 1
         # literal types written in this module (push sites and retagging stores `token.type = "s_open"`)
         lits_mod = {x.value for x in ast.walk(f.module.tree) if isinstance(x, ast.Constant) and isinstance(x.value, str) and x.value.endswith(("_open", "_close"))}
+        # ... and the kinds the module's functions produce through a shared helper (`convertToTag(tok, "s", 1, "~~")`)
+        for ts_ in token_sites(c):
+            if ts_.func.module is f.module and ts_.kinds:
+                lits_mod |= {k for k in ts_.kinds if k.endswith(("_open", "_close"))}
         for (stmt, a, b) in swaps:
             n_sw += 1
             key = f"{f.short}|swap|{alpha(f, stmt)[:60]}"
